@@ -40,8 +40,16 @@ Fixpoint pparams (h : heap) (n : nat) (p : nat) : alist :=
 
 Definition point_params (h : heap) (p : nat) : alist := pparams h (depth h p) p.
 
+(** thunks of a user dynamic-wind: they emit and read, they never set the parameters *)
+Fixpoint silent (t : thunk) : Prop :=
+  match t with
+  | [] => True
+  | ASetParams _ :: _ => False
+  | _ :: r => silent r
+  end.
+
 Definition thunks_ok (h : heap) (p : nat) : Prop :=
-  (exists i, pin (hget h p) = [AEmit 1 i] /\ pout (hget h p) = [AEmit 2 i]) \/
+  (silent (pin (hget h p)) /\ silent (pout (hget h p))) \/
   (exists new, pin (hget h p) = [ASetParams new] /\ pout (hget h p) = [ASetParams (point_params h (parent h p))]).
 
 Definition heap_ok (h : heap) : Prop :=
@@ -64,6 +72,14 @@ Definition Invk (s : state) (k : list frame) : Prop := inv (hp s) k (dk s) (para
 Definition Inv (s : state) : Prop := Invk s (kont s).
 
 (** ---------------------------------------------------------------- basic facts *)
+Lemma silent_head : forall t (x : alist), silent t -> match t with ASetParams a :: _ => a | _ => x end = x.
+Proof. intros [|[k v|a|p] t] x H; cbn in *; tauto. Qed.
+
+Lemma silent_run : forall t pa o, silent t -> fst (run_actions t pa o) = pa.
+Proof.
+  induction t as [|[k v|a|p] t IH]; intros pa o H; cbn in *; try tauto; auto.
+Qed.
+
 Lemma kont_point_lt : forall h k, 0 < length h -> kont_ok h k -> kont_point k < length h.
 Proof.
   induction k as [|f k IH]; intros Hl Hk; cbn; [exact Hl|].
@@ -105,7 +121,8 @@ Lemma pparams_app : forall h r, heap_ok h -> forall n p, p < length h -> pparams
 Proof.
   intros h r Hok. induction n as [|n IH]; intros p Hp; [reflexivity|].
   cbn [pparams]. rewrite hget_app by assumption.
-  destruct (pin (hget h p)) as [|[k v|a] t]; auto.
+  destruct (pin (hget h p)) as [|[k v|a|q] t]; auto.
+  - rewrite parent_app by assumption. apply IH. apply parent_lt; auto.
   - rewrite parent_app by assumption. apply IH. apply parent_lt; auto.
   - rewrite parent_app by assumption. apply IH. apply parent_lt; auto.
 Qed.
@@ -135,7 +152,7 @@ Qed.
 
 (** ---------------------------------------------------------------- dynamic-wind entry keeps the invariant *)
 Definition wind_thunks (inn outt : thunk) (pa : alist) : Prop :=
-  (exists i, inn = [AEmit 1 i] /\ outt = [AEmit 2 i]) \/ (exists new, inn = [ASetParams new] /\ outt = [ASetParams pa]).
+  (silent inn /\ silent outt) \/ (exists new, inn = [ASetParams new] /\ outt = [ASetParams pa]).
 
 Lemma heap_ok_extend : forall h here inn outt,
   heap_ok h -> here < length h -> wind_thunks inn outt (point_params h here) ->
@@ -156,7 +173,7 @@ Proof.
   intros p Hp Hpl. rewrite app_length in Hpl. cbn in Hpl.
   destruct (Nat.eq_dec p (length h)) as [->|Hne].
   - unfold thunks_ok, parent. rewrite hget_new. cbn.
-    destruct Ht as [(i & -> & ->)|(new & -> & ->)]; [left; eauto|right].
+    destruct Ht as [[Hi Ho]|(new & -> & ->)]; [left; split; assumption|right].
     exists new. split; auto. rewrite point_params_app by assumption. reflexivity.
   - assert (Hlt : p < length h) by lia. unfold thunks_ok. rewrite hget_app, parent_app by assumption.
     rewrite point_params_app by (auto; apply parent_lt; auto). apply Hth; assumption.
@@ -185,8 +202,9 @@ Proof.
     - split; [reflexivity|]. split; [|apply conts_ok_app; exact Hcs].
       rewrite (point_params_step _ (length (hp s)) Hok') by (rewrite ?app_length; cbn; lia).
       rewrite hget_new. unfold parent. rewrite hget_new. cbn [pin pparent r].
-      destruct Ht as [(i & -> & ->)|(new & -> & ->)]; cbn.
-      + rewrite point_params_app by assumption. exact Hpa.
+      destruct Ht as [[Hi Ho]|(new & -> & ->)].
+      + rewrite silent_run, silent_head by assumption.
+        rewrite point_params_app by assumption. exact Hpa.
       + reflexivity. }
   clear - Hbase Hin. induction inner as [|f inner IH]; cbn; [exact Hbase|].
   inversion Hin; subst. apply nonwind_push; auto.
@@ -217,13 +235,15 @@ Proof.
       rewrite (surjective_pairing (run_wevs h (wind_script h here (parent h target)) (point_params h here) o)).
       rewrite IH by (auto; lia). cbn [run_wevs fst snd].
       rewrite (point_params_step h target Hok Hpos Ht).
-      destruct (Hth target Hpos Ht) as [(i & -> & _)|(new & -> & _)]; reflexivity.
+      destruct (Hth target Hpos Ht) as [[Hi _]|(new & -> & _)]; [|reflexivity].
+      rewrite silent_run, silent_head by assumption. reflexivity.
     + destruct (wind_script_out h here target Hwf Hh Ht Hne L) as [Hpos ->].
       pose proof Hwf as [_ Hw]. destruct (Hw here Hpos Hh) as [Hpar Hdh].
       cbn [run_wevs].
       assert (E : fst (run_actions (pout (hget h here)) (point_params h here) o) = point_params h (parent h here)).
-      { destruct (Hth here Hpos Hh) as [(i & Hi & ->)|(new & Hi & ->)]; cbn; [|reflexivity].
-        rewrite (point_params_step h here Hok Hpos Hh), Hi. reflexivity. }
+      { destruct (Hth here Hpos Hh) as [[Hi Ho]|(new & Hi & ->)]; [|reflexivity].
+        rewrite silent_run by assumption.
+        rewrite (point_params_step h here Hok Hpos Hh), silent_head by assumption. reflexivity. }
       rewrite E. apply IH; auto; lia.
 Qed.
 
@@ -281,9 +301,9 @@ Proof.
   split; [exact Hok|]. split; [exact H6|]. split; [exact H4|]. split; [|exact Hcs].
   pose proof Hok as (_ & _ & _ & Hth).
   rewrite Hpa, (point_params_step h np Hok H1 H2).
-  destruct (Hth np H1 H2) as [(i & Hi & Ho)|(new & Hi & Ho)]; rewrite Ho in H5; subst outt; rewrite Hi; cbn.
-  - rewrite H3. reflexivity.
-  - rewrite H3. reflexivity.
+  destruct (Hth np H1 H2) as [[Hi Ho]|(new & Hi & Ho)]; rewrite <- H5.
+  - rewrite silent_run, silent_head by assumption. rewrite H3. reflexivity.
+  - rewrite Ho, Hi. cbn. rewrite H3. reflexivity.
 Qed.
 
 (** ---------------------------------------------------------------- the invariant is preserved by every step *)
@@ -298,7 +318,7 @@ Proof.
     + apply (nonwind_push _ _ _ _ _ FShow I HI).
     + apply (nonwind_push _ _ _ _ _ (FSeq e2) I HI).
     + apply (nonwind_push _ _ _ _ _ (FAdd1 e2) I HI).
-    + apply do_wind_inv; [exact HI|left; eauto|constructor].
+    + apply do_wind_inv; [exact HI|left; split; exact I|constructor].
     + destruct HI as (A & B & C' & D & E). unfold Inv, Invk, inv. cbn [hp kont dk params conts].
       split; [exact A|]. split; [exact B|]. split; [exact C'|]. split; [exact D|]. apply conts_snoc; auto.
     + apply (nonwind_push _ _ _ _ _ (FThrow k limit) I HI).
@@ -316,6 +336,7 @@ Proof.
       * right. cbn [params]. eauto.
       * repeat constructor.
     + (* CCall *) apply (nonwind_push _ _ _ _ _ FCReturn I HI).
+    + (* DynWindP *) apply do_wind_inv; [exact HI|left; split; exact I|constructor].
   - (* return *)
     unfold step_ret. destruct (kont s) as [|f k] eqn:K.
     + unfold Inv, Invk in *. cbn [hp kont dk params conts]. rewrite K in HI. exact HI.
